@@ -12,6 +12,7 @@ is exercised by the boundary-alphabet runs of the check.
 import Pastel.Lemmas.Clamp
 import Pastel.Lemmas.LightMono
 import Pastel.Lemmas.Turns
+import Pastel.Lemmas.DerivedRanges
 
 namespace Pastel.C05
 open Pastel Sc ScOrd
@@ -170,5 +171,137 @@ theorem whole_turns_same_color (h s l a : ℝ) (k : ℤ) :
   show hueFrom (h + 360 * k) = hueFrom h + 360 * k
   unfold hueFrom
   simp only [real_isFinite, if_true]
+
+/-! ### Ranges of the derived quantities of a valid colour (exact arithmetic) -/
+
+
+
+/-- A valid colour at `ℝ`, in Mathlib's numerals. -/
+theorem valid_real (c : Color ℝ) (hc : Valid c) :
+    (0 ≤ c.sat ∧ c.sat ≤ 1) ∧ (0 ≤ c.light ∧ c.light ≤ 1) ∧ (0 ≤ c.alpha ∧ c.alpha ≤ 1) := by
+  obtain ⟨_, ⟨_, s0, s1⟩, ⟨_, l0, l1⟩, ⟨_, a0, a1⟩⟩ := hc
+  simp only [real_lit] at s0 s1 l0 l1 a0 a1
+  push_cast at s0 s1 l0 l1 a0 a1
+  exact ⟨⟨s0, s1⟩, ⟨l0, l1⟩, ⟨a0, a1⟩⟩
+
+/-- **Every float RGB channel of a valid colour lies in `[0,1]`** (exact arithmetic, every hue). -/
+theorem float_channels_range (c : Color ℝ) (hc : Valid c) :
+    (0 ≤ (toRgbaFloat c).x ∧ (toRgbaFloat c).x ≤ 1) ∧ (0 ≤ (toRgbaFloat c).y ∧ (toRgbaFloat c).y ≤ 1) ∧
+    (0 ≤ (toRgbaFloat c).z ∧ (toRgbaFloat c).z ≤ 1) := by
+  obtain ⟨⟨s0, s1⟩, ⟨l0, l1⟩, _⟩ := valid_real c hc
+  exact toRgbaFloat_range c s0 s1 l0 l1
+
+/-- **Brightness lies in `[0,1]`.** -/
+theorem brightness_range (c : Color ℝ) (hc : Valid c) : 0 ≤ brightness c ∧ brightness c ≤ 1 := by
+  obtain ⟨⟨x0, x1⟩, ⟨y0, y1⟩, ⟨z0, z1⟩⟩ := float_channels_range c hc
+  unfold brightness
+  sc_norm
+  constructor
+  · apply div_nonneg _ (by norm_num); nlinarith
+  · rw [div_le_one (by norm_num)]; nlinarith
+
+/-- **Luminance lies in `[0,1]`.** -/
+theorem luminance_range (c : Color ℝ) (hc : Valid c) : 0 ≤ luminance c ∧ luminance c ≤ 1 := by
+  obtain ⟨⟨x0, x1⟩, ⟨y0, y1⟩, ⟨z0, z1⟩⟩ := float_channels_range c hc
+  have hx := lumF_range _ x0 x1
+  have hy := lumF_range _ y0 y1
+  have hz := lumF_range _ z0 z1
+  unfold luminance
+  sc_norm
+  constructor <;> nlinarith [hx.1, hx.2, hy.1, hy.2, hz.1, hz.2]
+
+/-- **HSV saturation and value lie in `[0,1]`.** -/
+theorem hsv_range (c : Color ℝ) (hc : Valid c) :
+    (0 ≤ (toHsva c).y ∧ (toHsva c).y ≤ 1) ∧ (0 ≤ (toHsva c).z ∧ (toHsva c).z ≤ 1) := by
+  obtain ⟨⟨s0, s1⟩, ⟨l0, l1⟩, _⟩ := valid_real c hc
+  have hm0 : 0 ≤ min c.light (1 - c.light) := le_min l0 (by linarith)
+  have hml : min c.light (1 - c.light) ≤ c.light := min_le_left _ _
+  have hmr : min c.light (1 - c.light) ≤ 1 - c.light := min_le_right _ _
+  have hsm0 : 0 ≤ c.sat * min c.light (1 - c.light) := mul_nonneg s0 hm0
+  have hsm1 : c.sat * min c.light (1 - c.light) ≤ min c.light (1 - c.light) := by nlinarith
+  unfold toHsva
+  sc_norm
+  push_cast
+  refine ⟨?_, ⟨by linarith, by linarith⟩⟩
+  split_ifs with hv0
+  · have hv : 0 < c.light + c.sat * min c.light (1 - c.light) := by norm_num at hv0; exact hv0
+    norm_num
+    have hq0 : 0 ≤ c.light / (c.light + c.sat * min c.light (1 - c.light)) := div_nonneg l0 hv.le
+    have hq1 : c.light / (c.light + c.sat * min c.light (1 - c.light)) ≤ 1 := by
+      rw [div_le_one hv]; linarith
+    have hq2 : 1 / 2 ≤ c.light / (c.light + c.sat * min c.light (1 - c.light)) := by
+      rw [le_div_iff₀ hv]; linarith
+    constructor <;> linarith
+  · norm_num
+
+
+/-- **CIE L\* of a valid colour lies in `[0,100]`** (exact arithmetic). -/
+theorem lab_lightness_range (c : Color ℝ) (hc : Valid c) : 0 ≤ (toLab c).x ∧ (toLab c).x ≤ 100 := by
+  obtain ⟨⟨x0, x1⟩, ⟨y0, y1⟩, ⟨z0, z1⟩⟩ := float_channels_range c hc
+  have hx := lumF_range _ x0 x1
+  have hy := lumF_range _ y0 y1
+  have hz := lumF_range _ z0 z1
+  have hY : 0 ≤ (toXyz c).y / (d65Yn : ℝ) ∧ (toXyz c).y / (d65Yn : ℝ) ≤ 1 := by
+    simp only [toXyz, d65Yn]
+    rw [srgbDecode_eq_lumF, srgbDecode_eq_lumF, srgbDecode_eq_lumF]
+    norm_num
+    constructor <;> nlinarith [hx.1, hx.2, hy.1, hy.2, hz.1, hz.2]
+  have hf := labF_range _ hY.1 hY.2
+  unfold toLab
+  simp only []
+  sc_norm
+  norm_num
+  constructor <;> linarith [hf.1, hf.2]
+
+
+theorem cmyk_comp_range (x big : ℝ) (hx0 : 0 ≤ x) (hxb : x ≤ big) :
+    0 ≤ (big - x) / big ∧ (big - x) / big ≤ 1 := by
+  rcases eq_or_lt_of_le (_root_.le_trans hx0 hxb) with h | h
+  · rw [← h]; have : x = 0 := by linarith
+    rw [this]; norm_num
+  · constructor
+    · apply div_nonneg _ h.le; linarith
+    · rw [div_le_one h]; linarith
+
+/-- **CMYK components lie in `[0,1]`** for every colour (they are computed from the bytes). -/
+theorem cmyk_range (c : Color ℝ) :
+    (0 ≤ (toCmyk c).c ∧ (toCmyk c).c ≤ 1) ∧ (0 ≤ (toCmyk c).m ∧ (toCmyk c).m ≤ 1) ∧
+    (0 ≤ (toCmyk c).y ∧ (toCmyk c).y ≤ 1) ∧ (0 ≤ (toCmyk c).k ∧ (toCmyk c).k ≤ 1) := by
+  have hr := chan_range (toRgba8 c).r
+  have hg := chan_range (toRgba8 c).g
+  have hb := chan_range (toRgba8 c).b
+  unfold chan at hr hg hb
+  simp only [toCmyk, u8f, real_isNaN]
+  sc_norm
+  norm_num
+  generalize ((toRgba8 c).r.toNat : ℝ) / 255 = r at *
+  generalize ((toRgba8 c).g.toNat : ℝ) / 255 = g at *
+  generalize ((toRgba8 c).b.toNat : ℝ) / 255 = b at *
+  split_ifs with h1 h2
+  · have := cmyk_comp_range r r hr.1 le_rfl
+    have := cmyk_comp_range g r hg.1 h1.1
+    have := cmyk_comp_range b r hb.1 h1.2
+    refine ⟨?_, ?_, ?_, ?_⟩ <;> first | assumption | (constructor <;> linarith [hr.1, hr.2])
+  · have := cmyk_comp_range r g hr.1 h2.1
+    have := cmyk_comp_range g g hg.1 le_rfl
+    have := cmyk_comp_range b g hb.1 h2.2
+    refine ⟨?_, ?_, ?_, ?_⟩ <;> first | assumption | (constructor <;> linarith [hg.1, hg.2])
+  · have hrb : r ≤ b := by
+      by_contra hc
+      have hc := not_le.mp hc
+      by_cases hgr : g ≤ r
+      · exact h1 ⟨hgr, hc.le⟩
+      · exact h2 ⟨(not_le.mp hgr).le, by linarith [not_le.mp hgr]⟩
+    have hgb : g ≤ b := by
+      by_contra hc
+      have hc := not_le.mp hc
+      by_cases hgr : r ≤ g
+      · exact h2 ⟨hgr, hc.le⟩
+      · exact h1 ⟨(not_le.mp hgr).le, by linarith [not_le.mp hgr]⟩
+    have := cmyk_comp_range r b hr.1 hrb
+    have := cmyk_comp_range g b hg.1 hgb
+    have := cmyk_comp_range b b hb.1 le_rfl
+    refine ⟨?_, ?_, ?_, ?_⟩ <;> first | assumption | (constructor <;> linarith [hb.1, hb.2])
+
 
 end Pastel.C05
